@@ -121,6 +121,10 @@ type params struct {
 	flushAlt    bool   // a Flush() after each line is an explorer choice
 	advances    int
 	delayB      bool
+	singleton     bool          // orchestration type singleton (one pipeline for everything) instead of byKeySet
+	twoPairs      bool          // two output/buffer pairs from the start (out1 under q, out2 under q2)
+	secondHUP     string        // a second SIGHUP with this configuration variant after the first reload has completed
+	idleBeforeStop time.Duration // the driver lets this much virtual time pass before the stop of every generation but the last (cost-free)
 	retryInterval time.Duration // defs.ForwarderRetryInterval (default 10 s): below the 1 s ticker a failed session is followed by the next one within the bound
 	sinkBytes   int // defs.IntermediateBufferMaxTotalBytes (bytes per batch, same two places), default 4 MiB
 	sinkBatch   int // defs.IntermediateBufferMaxNumLogs (records per batch at the input and per key set at the orchestrator sink), default 500
@@ -419,6 +423,13 @@ func makeRun(p params) explore.RunFunc {
 			tagT = "t.$app"
 		}
 		cfgText := strings.ReplaceAll(strings.ReplaceAll(strings.ReplaceAll(configTemplate, "ROOT", filepath.Join(w.root, "q")), "METRICKEYS", mk), "TAGTEMPLATE", tagT)
+		if p.singleton {
+			cfgText = strings.Replace(cfgText, "  type: byKeySet\n  keys: [app]\n  tag: "+tagT+"\n", "  type: singleton\n  tag: t.single\n", 1)
+		}
+		if p.twoPairs {
+			i := strings.Index(cfgText, "  - name: out1\n")
+			cfgText += strings.Replace(strings.Replace(cfgText[i:], "name: out1", "name: out2", 1), "rootPath: "+filepath.Join(w.root, "q"), "rootPath: "+filepath.Join(w.root, "q2"), 1)
+		}
 		if p.reload != "" {
 			cfgText = strings.ReplaceAll(cfgText, "OUTPUTTYPE", "verifFluentd")
 		} else {
@@ -602,6 +613,10 @@ func drive(w *world) explore.Verdict {
 			return true
 		})
 		if !last {
+			if p.idleBeforeStop > 0 {
+				// nothing happens for a while (longer than the retry interval): failed sessions are followed by new ones
+				vsched.Sleep(p.idleBeforeStop, "driver.idle-before-stop")
+			}
 			quiet := vsched.Lazy("driver.stop")
 			for adv := 0; quiet && adv < p.advances && vsched.NextTimerIn() >= 0; adv++ {
 				if vsched.Choose(2, "advance-before-stop") == 0 {
@@ -706,6 +721,12 @@ func driveReload(w *world) explore.Verdict {
 					sink.Flush()
 					continue
 				}
+				if o.kind == "settle" {
+					// the client pauses for longer than the flush interval: the next flush tick really flushes the per-key buffers
+					vsched.Sleep(defs.IntermediateFlushInterval+100*time.Millisecond, "conn.pause")
+					sink.Flush()
+					continue
+				}
 				seqn++
 				stamp := fmt.Sprintf("c%dr%d", ci, seqn)
 				line := syslogLine("host1", o.app, "src", stamp)
@@ -731,6 +752,20 @@ func driveReload(w *world) explore.Verdict {
 	w.reloaded = true
 	vsched.Note("SIGHUP with new configuration %q (valid=%v)", p.reload, valid)
 	vsched.Raise(syscall.SIGHUP)
+	valid2 := false
+	if p.secondHUP != "" {
+		// the operator edits the file again once the first reload is over and sends a second SIGHUP at any later moment
+		vsched.WaitUntil("driver.wait-first-reload", time.Time{}, func() bool {
+			ok, fail := reloadCounts()
+			return ok+fail > okBefore+failBefore
+		})
+		vsched.Lazy("driver.sighup2")
+		var text2 string
+		text2, valid2 = w.newConfigFor(p.secondHUP)
+		os.WriteFile(w.cfgPath, []byte(text2), 0o644)
+		vsched.Note("second SIGHUP with new configuration %q (valid=%v)", p.secondHUP, valid2)
+		vsched.Raise(syscall.SIGHUP)
+	}
 	vsched.WaitUntil("driver.wait-connections", time.Time{}, func() bool {
 		for _, d := range w.connDone {
 			if !d {
@@ -766,7 +801,7 @@ func driveReload(w *world) explore.Verdict {
 			nAck++
 		case disk[l.stamp]:
 			nDisk++
-			if valid || !p.oldDown {
+			if valid || valid2 || !p.oldDown {
 				w.violate("reload:not-delivered", "record %s is still only in the on-disk queue after the reload and a drain against a healthy upstream: its queue was not taken over / served", l.stamp)
 			}
 		default:
@@ -774,7 +809,20 @@ func driveReload(w *world) explore.Verdict {
 		}
 	}
 	okAfter, failAfter := reloadCounts()
-	if valid {
+	if p.secondHUP != "" {
+		// every signal raised is answered by exactly one reload attempt
+		wantOK, wantFail := 0.0, 0.0
+		for _, v := range []bool{valid, valid2} {
+			if v {
+				wantOK++
+			} else {
+				wantFail++
+			}
+		}
+		if okAfter-okBefore != wantOK || failAfter-failBefore != wantFail {
+			w.violate("reload:count", "two SIGHUPs (%q then %q): reload counters success +%v failure +%v, expected +%v / +%v", p.reload, p.secondHUP, okAfter-okBefore, failAfter-failBefore, wantOK, wantFail)
+		}
+	} else if valid {
 		if okAfter-okBefore != 1 || failAfter != failBefore {
 			w.violate("reload:count", "valid new configuration: reload counters success +%v failure +%v", okAfter-okBefore, failAfter-failBefore)
 		}
@@ -1103,6 +1151,30 @@ func (w *world) checkMetrics(g int, acked map[string]bool, files int) {
 	if !(attempts >= fwd && fwd >= ackd) {
 		w.violate("metrics:forward-chain", "generation %d: forward attempts %d >= forwarded %d >= acknowledged %d does not hold", g, attempts, fwd, ackd)
 	}
+	// a chunk counts as forwarded when it is handed to the acknowledger; per connection only the LAST completely transmitted
+	// chunk can miss that step (stop or acknowledger end in between), and only if it was not acknowledged on that connection
+	tol := 0
+	for i, e := range w.envs {
+		if w.envGen[i] != g {
+			continue
+		}
+		for _, c := range e.Conns {
+			if n := len(c.SentOK); n > 0 {
+				acked := false
+				for _, a := range c.Acked {
+					if a == c.SentOK[n-1] {
+						acked = true
+					}
+				}
+				if !acked {
+					tol++
+				}
+			}
+		}
+	}
+	if sentOK-fwd > tol {
+		w.violate("metrics:forwarded-vs-upstream", "generation %d: the upstream received %d chunks completely, only %d are counted as forwarded; at most %d (last chunk of a connection, never acknowledged there) can have missed the hand-over to the acknowledger", g, sentOK, fwd, tol)
+	}
 	if sentOK-fwd > nconns {
 		w.violate("metrics:forwarded-vs-upstream", "generation %d: the upstream received %d chunks completely on %d connections but only %d are counted as forwarded", g, sentOK, nconns, fwd)
 	}
@@ -1214,6 +1286,16 @@ func scenarios(prop string) []*explore.Scenario {
 			add(by, 1, 2)
 		}
 	}
+	if prop == "C01" || prop == "C05" || prop == "C18" || prop == "C19" {
+		// a failed session is followed by the next one inside the same generation: retry interval below the 1 s tick
+		rt := params{name: "2conn-3rec/retry-within-generation", conns: [][]op{{L("appA"), L("appB")}, {L("appA")}}, gens: 2, chunkRecs: 1, memCap: 2, opt: full, retryInterval: 300 * time.Millisecond, idleBeforeStop: 2 * time.Second, advances: 1}
+		add(rt, 1, 2)
+		rt4 := params{name: "1conn-4rec-1key/retry-within-generation", conns: [][]op{{L("appA"), L("appA"), L("appA"), L("appA")}}, gens: 2, chunkRecs: 1, memCap: 4, opt: full, retryInterval: 300 * time.Millisecond, idleBeforeStop: 2 * time.Second, advances: 1}
+		add(rt4, 1, 2)
+		// the backlog variant: mixed saved / unsaved leftovers are resent inside the generation
+		rb := params{name: "backlog-then-new-traffic/retry-within-generation", conns: [][]op{{L("appA"), L("appA"), L("appB")}}, conns1: [][]op{{L("appA"), L("appB")}}, gens: 3, chunkRecs: 1, memCap: 2, gen0Down: true, opt: full, retryInterval: 300 * time.Millisecond, idleBeforeStop: 2 * time.Second, advances: 1}
+		add(rb, 1, 2)
+	}
 	if prop == "C06" {
 		// routing and tagging in the composed agent with pooled-size records of two key sets: the pipeline's tag and ID must
 		// not depend on input buffers that are recycled later (one-variable tag template and two-part template)
@@ -1230,6 +1312,30 @@ func scenarios(prop string) []*explore.Scenario {
 		for _, v := range []string{"identical", "transform-changed", "yaml-error", "unknown-field", "keys-changed", "maxfields-changed", "output-pair-added"} {
 			r := params{name: "reload/" + v, conns: [][]op{{L("appA"), L("appB"), L("appA")}, {L("appA")}}, gens: 1, chunkRecs: 1, memCap: 2, opt: fakeup.Options{}, reload: v, advances: 0}
 			add(r, 1, 2)
+		}
+		// the real flush tick does work: the clients pause for longer than the flush interval between records
+		S := op{kind: "settle"}
+		tk := params{name: "reload-tick/transform-changed", conns: [][]op{{L("appA"), S, L("appB"), S, L("appA")}, {L("appA"), S, L("appA")}}, gens: 1, chunkRecs: 1, memCap: 2, opt: fakeup.Options{}, reload: "transform-changed", advances: 0}
+		add(tk, 1, 2)
+		// the singleton orchestrator under reload, incl. take-over of its queue
+		sg := params{name: "reload-singleton/transform-changed", conns: [][]op{{L("appA"), L("appB"), L("appA")}, {L("appA")}}, gens: 1, chunkRecs: 1, memCap: 2, opt: fakeup.Options{}, reload: "transform-changed", singleton: true, advances: 0}
+		add(sg, 1, 2)
+		st := sg
+		st.name = "reload-singleton-takeover/identical"
+		st.reload = "identical"
+		st.conns = [][]op{{L("appA"), L("appB")}}
+		st.oldDown = true
+		add(st, 1, 2)
+		// two output/buffer pairs: the queues of BOTH outputs are taken over
+		tp := params{name: "reload-takeover-two-outputs/identical", conns: [][]op{{L("appA"), L("appB")}}, gens: 1, chunkRecs: 1, memCap: 2, opt: fakeup.Options{}, reload: "identical", oldDown: true, twoPairs: true, advances: 0}
+		add(tp, 1, 2)
+		// key values that need escaping in the pipeline ID / queue directory name
+		ek := params{name: "reload-takeover-escaped-keys/identical", conns: [][]op{{L("app%A,x"), L("app,%2C")}}, gens: 1, chunkRecs: 1, memCap: 2, opt: fakeup.Options{}, reload: "identical", oldDown: true, advances: 0}
+		add(ek, 1, 2)
+		// two signals: failed then successful reload, successful then failed, successful twice
+		for _, pair := range [][2]string{{"yaml-error", "transform-changed"}, {"transform-changed", "unknown-field"}, {"identical", "transform-changed"}} {
+			th := params{name: "reload-twice/" + pair[0] + "+" + pair[1], conns: [][]op{{L("appA"), L("appB"), L("appA")}, {L("appA")}}, gens: 1, chunkRecs: 1, memCap: 2, opt: fakeup.Options{}, reload: pair[0], secondHUP: pair[1], advances: 0}
+			add(th, 1, 2)
 		}
 		for _, v := range []string{"identical", "transform-changed"} {
 			r := params{name: "reload-takeover/" + v, conns: [][]op{{L("appA"), L("appB")}}, gens: 1, chunkRecs: 1, memCap: 2, opt: fakeup.Options{}, reload: v, oldDown: true, advances: 0}
@@ -1257,9 +1363,6 @@ func scenarios(prop string) []*explore.Scenario {
 		odd.AckAlt = 6
 		ao := params{name: "1conn-4rec-1key/ack-unknown-and-out-of-order", conns: [][]op{{L("appA"), L("appA"), L("appA"), L("appA")}}, gens: 2, chunkRecs: 1, memCap: 4, opt: odd, advances: 1}
 		add(ao, 1, 2)
-		// a failed session is followed by the next one inside the same generation: retry interval below the 1 s tick
-		rt := params{name: "2conn-3rec/retry-within-generation", conns: [][]op{{L("appA"), L("appB")}, {L("appA")}}, gens: 2, chunkRecs: 1, memCap: 2, opt: full, retryInterval: 300 * time.Millisecond, advances: 3}
-		add(rt, 1, 2)
 		// filtered (labelled) records of two hosts, pooled-size, with pauses in which the input buffers are recycled
 		PD := func(host string, drop bool) op { return op{kind: "line", app: "appA", host: host, pad: 1100, drop: drop} }
 		lf := params{name: "pooled-filtered-hosts", conns: [][]op{{PD("alpha00", true), {kind: "settle"}, PD("bravo00", false), {kind: "settle"}, PD("bravo00", true), PD("alpha00", true), {kind: "settle"}, PD("charl00", true)}}, gens: 2, chunkRecs: 1, memCap: 2, opt: full, advances: 1}
